@@ -177,19 +177,32 @@ Proof. intros (R1 & R2 & R3 & R4 & R5 & R6 & R7). apply table_ext; auto.
 
 Definition lpf (n : node) : id := match getT h1 (n_p n) with Some rp => t_children rp | None => 0 end.
 
-Theorem restore_free : exists hr, restore h1 g = Some hr /\ same_tables h0 (free_placeholders hr g).
+Theorem restore_free : exists hr, restore h1 g = Some hr /\ same_tables h0 (free_placeholders hr g) /\ h_next (free_placeholders hr g) = h_next h1.
 Proof. unfold restore. rewrite (nodes_eq h0 b h1 g tb L DS h1 (ph_tree_h1 h0 b h1 g tb L W DS)). simpl.
   destruct (restore_fold g [] h1 eq_refl RInv_h1) as (hr & Hf & R).
   change (fun (acc : option heap) (n : node) => match acc with Some h2 => reroute h2 (n_p n) (n_t n) | None => None end) with rs_step.
   rewrite Hf. exists hr. split; auto.
-  pose proof (RInv_nil_ops hr R) as Ho. destruct R as (R1 & R2 & R3 & R4 & R5 & R6 & R7).
+  pose proof (RInv_nil_ops hr R) as Ho.
+  cut (free_placeholders hr g = mkH (dels (h_t hr) (map n_p g)) (h_o hr) (h_set hr) (dels (h_lst hr) (map lpf g)) (h_arr hr) (h_next hr)
+       /\ same_tables h0 (mkH (dels (h_t hr) (map n_p g)) (h_o hr) (h_set hr) (dels (h_lst hr) (map lpf g)) (h_arr hr) (h_next hr))).
+  { intros [-> ST]. split; auto. simpl. apply R. } destruct R as (R1 & R2 & R3 & R4 & R5 & R6 & R7).
   unfold free_placeholders.
   change (fun (h2 : heap) (n : node) => match getT h2 (n_p n) with
       | Some tp => match getT h2 (n_t n) with
                    | Some rt => if Nat.eqb (t_children tp) (t_children rt) then delT h2 (n_p n) else delL (delT h2 (n_p n)) (t_children tp)
                    | None => h2 end
       | None => h2 end) with fp_step.
-  rewrite (free_fold lpf g hr).
+  split.
+  - apply (free_fold lpf g hr).
+    + apply (i_pnd _ _ _ _ _ _ I).
+    + intros n Hn. destruct (ph_final h0 b h1 g tb L W DS n Hn) as (r0 & l & E1 & E2 & E3 & E4 & E5 & E6).
+      exists (with_children (with_base r0 (bb (h_next h0) (t_base tb) n)) l), r0.
+      unfold getT. rewrite R1. fold (getT h1 (n_p n)). fold (getT h1 (n_t n)).
+      split; auto. split.
+      { rewrite (i_tget _ _ _ _ _ _ I); auto. apply (i_tlt _ _ _ _ _ _ I); auto. }
+      unfold lpf. rewrite E3. simpl. split; auto.
+      destruct (wf_tens _ W _ _ E1) as (Hc & _). lia.
+    + intros n n' Hn Hn'. pose proof (i_tlt _ _ _ _ _ _ I n Hn). pose proof (i_p _ _ _ _ _ _ I n' Hn'). lia.
   - unfold same_tables. simpl. rewrite R1, R3.
     split; [|split; [exact Ho|split; [exact R2|split; [|exact R4]]]].
     + eapply dels_restore.
@@ -208,21 +221,13 @@ Proof. unfold restore. rewrite (nodes_eq h0 b h1 g tb L DS h1 (ph_tree_h1 h0 b h
         unfold lpf in Hk0. rewrite E3 in Hk0. simpl in Hk0. lia.
       * intros l Hl. destruct (i_L _ _ _ _ _ _ I l Hl) as (_ & n & rp & Hn & Erp & El).
         apply in_map_iff. exists n. split; auto. unfold lpf. now rewrite Erp.
-      * intros k Hk. apply (i_lget _ _ _ _ _ _ I). now apply (wf_lt_lst _ W).
-  - apply (i_pnd _ _ _ _ _ _ I).
-  - intros n Hn. destruct (ph_final h0 b h1 g tb L W DS n Hn) as (r0 & l & E1 & E2 & E3 & E4 & E5 & E6).
-    exists (with_children (with_base r0 (bb (h_next h0) (t_base tb) n)) l), r0.
-    unfold getT. rewrite R1. fold (getT h1 (n_p n)). fold (getT h1 (n_t n)).
-    split; auto. split.
-    { rewrite (i_tget _ _ _ _ _ _ I); auto. apply (i_tlt _ _ _ _ _ _ I); auto. }
-    unfold lpf. rewrite E3. simpl. split; auto.
-    destruct (wf_tens _ W _ _ E1) as (Hc & _). lia.
-  - intros n n' Hn Hn'. pose proof (i_tlt _ _ _ _ _ _ I n Hn). pose proof (i_p _ _ _ _ _ _ I n' Hn'). lia. Qed.
+      * intros k Hk. apply (i_lget _ _ _ _ _ _ I). now apply (wf_lt_lst _ W). Qed.
 
 End Restore.
 
 (* ------------------------------------------------------------------ T1 (given that dup succeeded) *)
 Theorem dup_restore_given h b h1 g : wf h -> dup h b = Some (h1, g) ->
-  exists h2, restore h1 g = Some h2 /\ same_tables h (free_placeholders h2 g).
+  exists h2, restore h1 g = Some h2 /\ same_tables h (free_placeholders h2 g) /\ h_next (free_placeholders h2 g) = h_next h1 /\ h_next h <= h_next h1.
 Proof. intros W D. destruct (dup_spec h b h1 g W D) as (tb & L & DS).
-  apply (restore_free h b h1 g tb L W DS). Qed.
+  destruct (restore_free h b h1 g tb L W DS) as (h2 & A & B & C). exists h2. repeat split; auto; try apply B.
+  apply (i_next _ _ _ _ _ _ (ds_inv _ _ _ _ _ _ DS)). Qed.
